@@ -53,7 +53,7 @@ func c10Receivers() []Val {
 	return []Val{
 		Num(0), Num(math.Copysign(0, -1)), Num(1), Num(-1), Num(0.5), Num(-7.5), Num(9007199254740993), Num(1e308), Num(5e-324),
 		Num(math.Inf(1)), Num(math.Inf(-1)), Num(math.NaN()),
-		Text(""), Text("a"), Text("你好，世界"), Text("😀x"), Text("1.5"), Text("{}"), Text("{#.2}{"), Text("1*^2"), Text(strings.Repeat("长", 300)),
+		Text(""), Text("a"), Text("你好，世界"), Text("😀x"), Text("一二三四五六七八九十百千"), Text("1.5"), Text("{}"), Text("{#.2}{"), Text("1*^2"), Text(strings.Repeat("长", 300)),
 		Bool(true), Bool(false), Null(),
 		List(), List(Num(1), Num(2), Num(3)), List(Text("a"), Text("b")), List(List(Num(1)), Dict([]string{"k"}, []Val{Num(1)}), Null()),
 		Dict(nil, nil), Dict([]string{"甲", "乙"}, []Val{Num(1), Text("x")}), Dict([]string{"列", "典"}, []Val{List(Num(1)), Dict([]string{"内"}, []Val{Null()})}),
@@ -100,7 +100,7 @@ func checkC10(c *Ctx) {
 	// the deepest inputs of this check need a few GiB in the worker: a wider memory budget than the default
 	c.Pool.Env = append(c.Pool.Env, "ZNWORKER_RSS_LIMIT_MB=10240")
 	c.Pool.LongRetry = true
-	c.rule = "API driver: every receiver of a 53-value pool (dictionaries with unusual but legal keys - the empty text, a blank, NUL, a quote, number spellings, a 200-character key - among them) (all value types incl. objects, types, library functions, exception, Go value) x every member name extracted from the working tree (+unknown names) x {get, set, call, new, fn, str, dup, twin (continue on the copy), cmp, json} x argument tuples (arity 0..1 exhaustive over a 33-value boundary pool, arity 2 exhaustive in thorough, arity 2..4 random; for list / dictionary / text receivers additionally every position and position pair in [-2, length+2]; for dictionary receivers every member with key paths that begin with the receiver's own keys), applied as step sequences on one receiver; plus scripted histories that copy a list / dictionary of 0..9 elements and alternate insertions and removals between the value and its copy, displaying both. Program driver: one- and two-statement Zn programs applying every operator / index / member / call / new / throw / loop form to input variables drawn from the same pools; plus user methods / type methods whose body ends in each of 25 failures (with no handler, a handler without and with 输出) whose call is placed in each of 26 consumer positions. Whole-program driver: programs made of definitions / comments / imports only and programs yielding each kind of value and ill-formed programs whose error report steps over characters of every plane, through Execute and through the playground HTTP handler; runaway recursion (plain, mutual, through a type method, through a constructor) without a logical budget. Input-variable driver: texts without any statement (line breaks, comments, imports only), every right-hand-side kind, failing and ill-formed texts through ExecVarInputText. Traversal driver: every mutating list / dictionary method applied to the collection a 遍历 is running over (lists of 1, 2, 3, 6 items; directly, in a called method, through an alias parameter). Host driver: 21 programs served by ZnHttpHandler that answer with an HTTP响应 object whose 头部 / 状态码 / 内容 have the wrong type or whose status is 0, negative, fractional, 99, 1000, 1e19, infinite or NaN. Huge-result driver: 替换 / 拼接 / 分隔 on ordinary-sized texts whose result would need 2^49 bytes. Violation = recovered Go panic, nil element without error, worker exit, or hang. distinct_nontrivial = distinct (receiver kind, step kind, member, arg kinds, outcome kind)"
+	c.rule = "API driver: every receiver of a 54-value pool (dictionaries with unusual but legal keys - the empty text, a blank, NUL, a quote, number spellings, a 200-character key - among them) (all value types incl. objects, types, library functions, exception, Go value) x every member name extracted from the working tree (+unknown names) x {get, set, call, new, fn, str, dup, twin (continue on the copy), cmp, json} x argument tuples (arity 0..1 exhaustive over a 33-value boundary pool, arity 2 exhaustive in thorough, arity 2..4 random; for list / dictionary / text receivers additionally every position and position pair in [-2, length+2]; for dictionary receivers every member with key paths that begin with the receiver's own keys), applied as step sequences on one receiver; plus scripted histories that copy a list / dictionary of 0..9 elements and alternate insertions and removals between the value and its copy, displaying both. Program driver: one- and two-statement Zn programs applying every operator / index / member / call / new / throw / loop form to input variables drawn from the same pools; plus user methods / type methods whose body ends in each of 25 failures (with no handler, a handler without and with 输出) whose call is placed in each of 26 consumer positions. Whole-program driver: programs made of definitions / comments / imports only and programs yielding each kind of value and ill-formed programs whose error report steps over characters of every plane, through Execute and through the playground HTTP handler; runaway recursion (plain, mutual, through a type method, through a constructor) without a logical budget. Input-variable driver: texts without any statement (line breaks, comments, imports only), every right-hand-side kind, failing and ill-formed texts through ExecVarInputText. Traversal driver: every mutating list / dictionary method applied to the collection a 遍历 is running over (lists of 1, 2, 3, 6 items; directly, in a called method, through an alias parameter). Host driver: 21 programs served by ZnHttpHandler that answer with an HTTP响应 object whose 头部 / 状态码 / 内容 have the wrong type or whose status is 0, negative, fractional, 99, 1000, 1e19, infinite or NaN. Huge-result driver: 替换 / 拼接 / 分隔 on ordinary-sized texts whose result would need 2^49 bytes. Violation = recovered Go panic, nil element without error, worker exit, or hang. distinct_nontrivial = distinct (receiver kind, step kind, member, arg kinds, outcome kind)"
 	c.assumptions = []string{"library functions run inside the worker's private scratch directory", "member tables are read from /repo sources at check time by a string-literal scan"}
 	rng := c.Rand("c10")
 	members := memberNames()
@@ -150,6 +150,14 @@ func checkC10(c *Ctx) {
 					for j := -2; j <= L+2; j++ {
 						steps = append(steps, Step{Kind: "call", Name: m, Args: []Val{Num(float64(i)), Num(float64(j))}})
 					}
+				}
+			}
+			// text receivers: positions between the number of characters and the number of bytes
+			// (and a little beyond), where a count taken in the wrong unit passes a bounds check
+			if rv.T == "text" && m == "取样" {
+				nb := len(rv.S())
+				for k := len([]rune(rv.S())); k <= nb+2 && k <= 1200; k++ {
+					steps = append(steps, Step{Kind: "call", Name: m, Args: []Val{Num(1), Num(float64(k))}}, Step{Kind: "call", Name: m, Args: []Val{Num(float64(k)), Num(float64(k))}}, Step{Kind: "call", Name: m, Args: []Val{Num(2), Num(float64(k))}})
 				}
 			}
 			// key paths of a dictionary receiver: every member called with the receiver's own keys
